@@ -1,28 +1,32 @@
 #!/usr/bin/env python3
-"""run the property's check against seeded changes: seed_run.py C07-1 [C07-2 ...] [--tier quick]"""
-import sys, os, json, subprocess, time
+"""run the property's check against seeded changes in a scratch worktree (never in /repo):
+   seed_run.py C07-1 [C07-2 ...] [--tier quick]"""
+import sys, os, json, subprocess, time, shutil
 V = "/verif"
 tier = "quick"
-ids = [a for a in sys.argv[1:] if not a.startswith("--")]
-if "--tier" in sys.argv:
-    tier = sys.argv[sys.argv.index("--tier") + 1]; ids = [i for i in ids if i != tier]
-for sid in ids:
+args = sys.argv[1:]
+if "--tier" in args:
+    i = args.index("--tier"); tier = args[i + 1]; del args[i:i + 2]
+for sid in args:
     d = os.path.join(V, "seeded", sid); prop = sid.split("-")[0]
-    assert subprocess.run("git -C /repo status --porcelain", shell=True, capture_output=True, text=True).stdout.strip() == "", "/repo not clean"
-    r = subprocess.run("git -C /repo apply %s/patch.diff" % d, shell=True)
+    wt = "/tmp/sr/%s" % sid
+    subprocess.run("git -C /repo worktree remove --force %s 2>/dev/null; rm -rf %s; mkdir -p /tmp/sr && git -C /repo worktree add -q --detach %s HEAD" % (wt, wt, wt), shell=True)
+    r = subprocess.run("git -C %s apply %s/patch.diff" % (wt, d), shell=True, capture_output=True, text=True)
     if r.returncode != 0:
-        print(sid, "PATCH DOES NOT APPLY"); continue
+        r = subprocess.run("git -C %s apply -3 %s/patch.diff" % (wt, d), shell=True, capture_output=True, text=True)
+    if r.returncode != 0:
+        print(sid, "PATCH DOES NOT APPLY:", r.stderr.strip()[:200]); subprocess.run("git -C /repo worktree remove --force %s" % wt, shell=True); continue
     t0 = time.time()
     try:
-        p = subprocess.run("./vcheck %s --tier %s --no-evidence" % (prop, tier), shell=True, cwd=V, capture_output=True, text=True, timeout=3600)
+        p = subprocess.run("VK_REPO=%s ./vcheck %s --tier %s --no-evidence" % (wt, prop, tier), shell=True, cwd=V, capture_output=True, text=True, timeout=5400)
         rc, out = p.returncode, p.stdout + p.stderr
     finally:
-        subprocess.run("git -C /repo checkout -- .", shell=True)
+        subprocess.run("git -C /repo worktree remove --force %s" % wt, shell=True)
     viol = sorted({l.split(" -- ")[0].replace("  violated: ", "") for l in out.splitlines() if l.startswith("  violated:")})
-    herr = [l[:200] for l in out.splitlines() if l.startswith("HARNESS-ERROR")][:3]
+    herr = [l[:300] for l in out.splitlines() if l.startswith("HARNESS-ERROR")][:3]
     m = json.load(open(d + "/meta.json"))
     m.setdefault("check_runs", {})[tier] = {"exit": rc, "violated_obligations": viol, "harness_errors": herr, "wall_s": round(time.time() - t0, 1),
-                                             "cmd": "git -C /repo apply seeded/%s/patch.diff; ./vcheck %s --tier %s; git -C /repo checkout -- ." % (sid, prop, tier)}
+                                             "cmd": "git worktree add <wt>; git -C <wt> apply seeded/%s/patch.diff; VK_REPO=<wt> ./vcheck %s --tier %s" % (sid, prop, tier)}
     m["caught"] = (rc == 1)
     json.dump(m, open(d + "/meta.json", "w"), indent=1)
     print(sid, "exit", rc, "caught" if rc == 1 else "MISSED" if rc == 0 else "HARNESS-ERROR", viol[:4], herr[:1])
